@@ -1,139 +1,3 @@
-struct WrappedLoopChoiceBlockConfig<'a> {
-    loop_label: &'a str,
-    group_index: usize,
-    fallback_continuation: Option<&'a str>,
-}
-
-fn build_wrapped_loop_choice_block(
-    choices: &[Node],
-    continuation: &[Node],
-    scope: &EmitScope,
-    next_choice_index: &mut usize,
-    context: &EmitContext,
-    config: WrappedLoopChoiceBlockConfig<'_>,
-) -> Result<ThreadedChoiceOutput, CompilerError> {
-    let WrappedLoopChoiceBlockConfig {
-        loop_label,
-        group_index,
-        fallback_continuation,
-    } = config;
-
-    let outer_path = joined_path(&scope.path, group_index);
-    let group_path = joined_path(&outer_path, loop_label);
-    let mut choice_labels = BTreeMap::new();
-    for (offset, node) in choices.iter().enumerate() {
-        let Node::Choice(choice) = node else {
-            continue;
-        };
-        if let Some(label) = &choice.label {
-            let label_target =
-                joined_path(&group_path, format!("c-{}", *next_choice_index + offset));
-            choice_labels.insert(label.clone(), label_target);
-        }
-    }
-    choice_labels.insert(loop_label.to_owned(), group_path.clone());
-    let block_scope = scope
-        .at_path(group_path.clone())
-        .with_choice_labels(choice_labels);
-    let choices_prefix = group_path;
-
-    let mut choices_group = EmittedContainer::default();
-    let mut local_choice_index = *next_choice_index;
-
-    // Build continuation g-N.
-    let g_name = format!("g-{}", *next_choice_index);
-    let continuation_path_abs = joined_path(&outer_path, &g_name);
-    let continuation_scope = scope.at_path(continuation_path_abs.clone());
-    let continuation_body = match continuation.first() {
-        Some(Node::GatherPoint) => &continuation[1..],
-        _ => continuation,
-    };
-    let continuation_has_nested_choices = continuation_body
-        .iter()
-        .any(|node| matches!(node, Node::Choice(_)));
-    let simple_terminal_fallback = wrapped_loop_simple_terminal_fallback(continuation_body);
-    let fallback_is_self = fallback_continuation == Some(continuation_path_abs.as_str());
-    let inner_fallback = if fallback_is_self {
-        None
-    } else {
-        fallback_continuation
-    };
-
-    let continuation_value = if simple_terminal_fallback.is_none() {
-        let mut continuation_container = emit_nodes_with_continuation(
-            continuation_body,
-            &continuation_scope,
-            context,
-            inner_fallback,
-        )?;
-
-        if let Some(token) = loose_end_append_for_nodes(
-            continuation_body,
-            continuation_has_nested_choices,
-            fallback_continuation,
-            Some(continuation_path_abs.as_str()),
-            true,
-            LooseEndNoFallback::Done,
-        ) {
-            continuation_container.push(token);
-        }
-        Some(continuation_container.into_json_array(None, None)?)
-    } else {
-        None
-    };
-
-    for node in choices {
-        let Node::Choice(choice) = node else {
-            continue;
-        };
-
-        let header_idx = choices_group.content.len();
-        let header_scope =
-            block_scope.at_path(joined_path(&block_scope.path, header_idx));
-        choices_group.push(emit_wrapped_loop_choice_header(
-            choice,
-            &header_scope,
-            local_choice_index,
-            header_idx,
-            &choices_prefix,
-            context,
-        )?);
-
-        let branch_name = format!("c-{local_choice_index}");
-        let branch_scope = block_scope.choice_branch(&branch_name);
-        choices_group.insert_named(
-            branch_name,
-            emit_wrapped_loop_choice_body(
-                choice,
-                &branch_scope,
-                WrappedLoopChoiceBodyConfig {
-                    choice_index: local_choice_index,
-                    header_idx,
-                    choices_prefix: &choices_prefix,
-                    continuation_path: if simple_terminal_fallback.is_some() {
-                        None
-                    } else {
-                        Some(&continuation_path_abs)
-                    },
-                    continuation_terminal: simple_terminal_fallback,
-                    label_scan_path: None,
-                },
-                context,
-            )?,
-        );
-
-        local_choice_index += 1;
-        *next_choice_index += 1;
-    }
-
-    Ok(ThreadedChoiceOutput {
-        group: choices_group,
-        group_name: Some(loop_label.to_owned()),
-        continuation: continuation_value.map(|value| (g_name, value)),
-        continuation_placement: ThreadedContinuationPlacement::OutsideGroup,
-    })
-}
-
 fn emit_wrapped_loop_choice_header(
     choice: &Choice,
     scope: &EmitScope,
@@ -339,24 +203,4 @@ fn emit_wrapped_loop_choice_body(
     out.append(&mut arr);
     out.push(last);
     Ok(Value::Array(out))
-}
-
-fn wrapped_loop_simple_terminal_fallback(nodes: &[Node]) -> Option<&'static str> {
-    let mut iter = nodes
-        .iter()
-        .filter(|n| !matches!(n, Node::Newline | Node::GatherPoint));
-    let first = iter.next()?;
-    if iter.next().is_some() {
-        return None;
-    }
-
-    match first {
-        Node::Divert(Divert { target, arguments }) if arguments.is_empty() && target == "END" => {
-            Some("end")
-        }
-        Node::Divert(Divert { target, arguments }) if arguments.is_empty() && target == "DONE" => {
-            Some("done")
-        }
-        _ => None,
-    }
 }
